@@ -581,6 +581,8 @@ def _items_of(x):
         return x.items
     if isinstance(x, (bytes, bytearray)):
         return tuple(x)
+    if type(x).__name__ == "SymByteArray":      # the bytearray stand-in of symx.shims.builtins_shim
+        return tuple(x.buf)
     return None
 
 
